@@ -301,7 +301,7 @@ class Gen:
         if kind == "copy_att":
             t = self.att_target(f)
             f2 = fi
-            if len(m.files) > 1 and chance(d, 35):
+            if len(m.files) > 1 and chance(d, 50):
                 f2 = 1 - fi
             g = m.files[f2]
             if t is None and chance(d, 70):
@@ -310,6 +310,18 @@ class Gen:
                 return {"op": kind, "f": fi, "v": self.var_target(f), "name": self.any_name().hex(), "f2": f2, "v2": self.var_target(g)}
             v, a = t
             v2 = v if (f2 == fi and chance(d, 15)) else self.var_target(g)
+            if chance(d, 45):
+                # prefer an overwrite of an existing attribute of the destination (same name; larger, equal or smaller):
+                # growth is only legal when the DESTINATION file is in define mode
+                cands = []
+                for sv, sl in [(-1, f.gatts)] + [(i, x.atts) for i, x in enumerate(f.vars)]:
+                    for sa in sl:
+                        for dv, dl in [(-1, g.gatts)] + [(i, x.atts) for i, x in enumerate(g.vars)]:
+                            if (g is f and dv == sv) or g.find_att(dl, sa.name) < 0:
+                                continue
+                            cands.append((sv, sa, dv))
+                if cands:
+                    v, a, v2 = pick(d, cands[:40])
             return {"op": kind, "f": fi, "v": v, "name": self.spelling(a.name).hex(), "f2": f2, "v2": v2}
         if kind == "del_att":
             t = self.att_target(f)
